@@ -183,8 +183,11 @@ def _build(specs, plain=False):
         if not plain:
             if cur is not None:
                 s.set_seed(cur)
-            for _ in range(pre):
+            for i_ in range(pre):
                 s.next_float()
+                for _b in range(i_ + 1):       # 1, 2, 3.. boolean draws: not a multiple of any word size
+                    s.next_bool()
+                s.next_int(0, 9)
         d[nm] = s
     return d
 
@@ -194,7 +197,8 @@ def _obs(stream):
     # saving and restoring the state right after the update is a no-op (a model may snapshot its streams at the start
     # of a replication): the draws are still those of the seed
     stream.restore_state(stream.save_state())
-    return [sd, stream.next_float().hex(), stream.next_float().hex(), stream.next_float().hex()]
+    return [sd, stream.next_float().hex(), stream.next_float().hex(), stream.next_float().hex(),
+            "".join("1" if stream.next_bool() else "0" for _ in range(8)), stream.next_int(-5, 1000)]
 
 
 def _obs_all(d):
@@ -352,7 +356,7 @@ def run_case(case):
         # the seed reported after the update is the seed of the sequence that is drawn
         for nm in names:
             f = MersenneTwister(exp_simple[nm][0])
-            if [f.next_float().hex() for _ in range(3)] != exp_simple[nm][1:]:
+            if [f.next_float().hex() for _ in range(3)] != exp_simple[nm][1:4]:
                 out.fail("seed-draws-mismatch:simple", {"stream": nm, "obs": exp_simple[nm]})
                 break
         # sensitivity: the fallback seed depends on the original seed and on the replication number
@@ -394,7 +398,7 @@ def run_case(case):
                                          "want": want})
             got = res["obs"][nm][0]
             f = MersenneTwister(got if type(got) is int else want)
-            if [f.next_float().hex() for _ in range(3)] != res["obs"][nm][1:]:
+            if [f.next_float().hex() for _ in range(3)] != res["obs"][nm][1:4]:
                 out.fail("seed-draws-mismatch:seeded", {"stream": nm, "obs": res["obs"][nm]})
         else:
             if res["exc"] is not None:
